@@ -76,6 +76,53 @@ type Case struct {
 	MethodContexts bool `json:"methodContexts,omitempty"`
 	// ViaREST: operations are submitted through the REST operations endpoint instead of the document handler directly
 	ViaREST bool `json:"viaRest,omitempty"`
+	// Label / Domain: the document handler hands out interim DIDs with that label (and names the domain in equivalent
+	// ids); Alias: the handler also answers under a second namespace. Only the DID string may depend on them.
+	Label  string `json:"label,omitempty"`
+	Domain string `json:"domain,omitempty"`
+	Alias  bool   `json:"alias,omitempty"`
+}
+
+const aliasNS = "did:alias"
+
+// didForm checks that a DID string the node put into a document names the DID with the given suffix under the
+// namespace or its alias, optionally with hint segments in front of the suffix and, where tail is given (the
+// ":<initial state>" part of the long-form DID that was asked for), optionally with that tail behind it.
+func didForm(id, suffix, tail string) bool {
+	rest := ""
+	switch {
+	case strings.HasPrefix(id, ns+":"):
+		rest = strings.TrimPrefix(id, ns+":")
+	case strings.HasPrefix(id, aliasNS+":"):
+		rest = strings.TrimPrefix(id, aliasNS+":")
+	default:
+		return false
+	}
+	if tail != "" {
+		rest = strings.TrimSuffix(rest, tail)
+	}
+	return rest == suffix || strings.HasSuffix(rest, ":"+suffix)
+}
+
+// askAs spells the DID a resolution asks for: the plain form, or (by turns, where configured) under the alias
+// namespace or with the label as a hint segment.
+func (p *pipeline) askAs(suffix, longFormTail string) string {
+	p.asked++
+	nsUsed, hint := ns, ""
+	switch p.asked % 3 {
+	case 1:
+		if p.c.Alias {
+			nsUsed = aliasNS
+			p.feat["asked-under-alias"] = true
+		}
+	case 2:
+		// (only long-form DIDs: the library's DID parser takes a hinted short-form DID for a long-form one)
+		if p.c.Label != "" && longFormTail != "" {
+			hint = p.c.Label + ":"
+			p.feat["asked-with-hint"] = true
+		}
+	}
+	return nsUsed + ":" + hint + suffix + longFormTail
 }
 
 type restMetrics struct{}
@@ -191,6 +238,7 @@ type didModel struct {
 }
 
 type pipeline struct {
+	asked   int
 	c       *Case
 	pc      *switchClient
 	ledger  *ledgerT
@@ -280,8 +328,18 @@ func newPipeline(c *Case) *pipeline {
 		popts = append(popts, processor.WithUnpublishedOperationStore(p.unpub))
 		hopts = append(hopts, dochandler.WithUnpublishedOperationStore(p.unpub, types))
 	}
+	if c.Label != "" {
+		hopts = append(hopts, dochandler.WithLabel(c.Label))
+	}
+	if c.Domain != "" {
+		hopts = append(hopts, dochandler.WithDomain(c.Domain))
+	}
+	var aliases []string
+	if c.Alias {
+		aliases = []string{aliasNS}
+	}
 	proc := processor.New("verif", p.store, p.pc, popts...)
-	p.handler = dochandler.New(ns, nil, p.pc, w, proc, wire.DocMetrics{}, hopts...)
+	p.handler = dochandler.New(ns, aliases, p.pc, w, proc, wire.DocMetrics{}, hopts...)
 	p.obsCh = &obsLedger{ch: make(chan []txn.SidetreeTxn)}
 	p.sp = &sentinelProvider{pc: p.pc, seen: make(chan struct{}, 1)}
 	p.obs = observer.New(&observer.Providers{Ledger: p.obsCh, ProtocolClientProvider: p.sp})
@@ -448,18 +506,24 @@ func (p *pipeline) submit(a *Action) (string, string) {
 		doc, aerr := refdoc.Apply(refdoc.New(), a.Patches)
 		ok := aerr == nil
 		if ok {
-			want := external(doc, ns+":"+d.suffix)
+			// the DID string of the response may carry the node's label; everything else is fixed by the request
+			rid, _ := d.createReply["id"].(string)
+			if !didForm(rid, d.suffix, "") {
+				return "C20/create-response", fmt.Sprintf("create response returns a document for %q (suffix %s)", rid, d.suffix)
+			}
+			want := external(doc, rid)
 			if df := refdoc.DiffExternal(d.createReply, want); len(df) > 0 {
 				return "C20/create-response", fmt.Sprintf("create response document %s differs from the reference projection %s on %v", js(d.createReply), js(want), df)
 			}
 			// long-form resolution before anchoring must show the same content
 			var lr *document.ResolutionResult
 			var lerr error
-			if pn := ev.Catch(func() { lr, lerr = p.handler.ResolveDocument(a.LongForm) }); pn != "" {
+			askLF := p.askAs(d.suffix, strings.TrimPrefix(a.LongForm, ns+":"+d.suffix))
+			if pn := ev.Catch(func() { lr, lerr = p.handler.ResolveDocument(askLF) }); pn != "" {
 				return "C20/panic", "long-form ResolveDocument panicked: " + pn
 			}
 			if lerr != nil {
-				return "C20/long-form", fmt.Sprintf("long-form DID of an accepted create does not resolve before anchoring: %v", lerr)
+				return "C20/long-form", fmt.Sprintf("long-form DID of an accepted create (asked as %s) does not resolve before anchoring: %v", ev.Trunc(askLF, 120), lerr)
 			}
 			if lr == nil || lr.Document == nil {
 				return "C20/long-form", "long-form DID of an accepted create does not resolve before anchoring: ResolveDocument returned neither a document nor an error"
@@ -471,7 +535,7 @@ func (p *pipeline) submit(a *Action) (string, string) {
 			got := norm(lr.Document).(map[string]interface{})
 			// the DID string may be the long or the short form (the statement allows it to differ); everything else must agree
 			gid, _ := got["id"].(string)
-			if gid != a.LongForm && gid != ns+":"+d.suffix {
+			if !didForm(gid, d.suffix, strings.TrimPrefix(a.LongForm, ns+":"+d.suffix)) {
 				return "C20/long-form", fmt.Sprintf("long-form resolution returns a document for %q", gid)
 			}
 			wantLF := external(doc, gid)
@@ -551,7 +615,7 @@ func (p *pipeline) compareAll() (string, string) {
 		if !ok {
 			continue
 		}
-		did := ns + ":" + d.suffix
+		did := p.askAs(d.suffix, "")
 		var rr *document.ResolutionResult
 		var err error
 		if pn := ev.Catch(func() { rr, err = p.handler.ResolveDocument(did) }); pn != "" {
@@ -568,7 +632,11 @@ func (p *pipeline) compareAll() (string, string) {
 			return k, m
 		}
 		got := norm(rr.Document).(map[string]interface{})
-		want := external(doc, did)
+		gid, _ := got["id"].(string)
+		if !didForm(gid, d.suffix, "") {
+			return "C20/resolution", fmt.Sprintf("DID %d asked as %s: the resolved document is for %q", i, did, gid)
+		}
+		want := external(doc, gid)
 		md := norm(rr.DocumentMetadata).(map[string]interface{})
 		method, _ := md["method"].(map[string]interface{})
 		gu, _ := method["updateCommitment"].(string)
@@ -589,7 +657,15 @@ func (p *pipeline) compareAll() (string, string) {
 		}
 		if d.anchoredN == 1 && unpubN == 0 && d.createReply != nil {
 			// create response vs short-form resolution after anchoring: same content
-			if len(refdoc.DiffExternal(d.createReply, got)) > 0 {
+			// modulo the DID string: the response's own DID is replaced by the resolved one before comparing
+			reply := d.createReply
+			if rid, _ := reply["id"].(string); rid != gid && rid != "" {
+				var o map[string]interface{}
+				if json.Unmarshal([]byte(strings.ReplaceAll(js(reply), rid, gid)), &o) == nil {
+					reply = o
+				}
+			}
+			if len(refdoc.DiffExternal(reply, got)) > 0 {
 				return "C20/create-vs-short-form", fmt.Sprintf("create response %s and short-form resolution after anchoring %s differ", js(d.createReply), js(got))
 			}
 			p.feat["create-vs-short-form"] = true
@@ -641,9 +717,15 @@ type clientDID struct {
 }
 
 func TestPipeline(t *testing.T) {
-	ev.Rule(chk, "rapid workloads over the whole pipeline made of real parts ((REST operations endpoint ->) DocumentHandler -> batch.Writer driven through the verif hook -> OperationHandler -> in-memory CAS -> recording ledger assigning time, non-monotone number, canonical and equivalent references -> Observer -> TxnProcessor -> operation store -> OperationProcessor -> didtransformer): 1-5 DIDs, 3-25 client operations (create / update / recover / deactivate with patch lists over all eight actions, all key types), drawn flush points (monitor / timeout ticks), maxOperationCount 1-4, operations submitted while an earlier one for the DID is still queued, one or two protocol versions (second one with sha2-512 first, fewer patch actions, later genesis time), with and without an unpublished-operation store, with and without two method contexts on the transformers; every result the node hands out stays held (last 16) and must not change while later requests are served; oracle: every stored operation carries the protocol version that was in force when it was accepted; after every flush and at the end every DID resolves (ResolveDocument) to the kit/refdoc + reference prediction over its accepted operations in anchoring order (document projection, commitments, deactivated, published flag and canonical id once anchored); create response == long-form resolution before anchoring == short-form resolution after anchoring (modulo the DID string); non-trivial = a DID with >= 3 applied operations including a recover or deactivate, or an operation submitted while another is queued, or a version switch")
+	ev.Rule(chk, "rapid workloads over the whole pipeline made of real parts ((REST operations endpoint ->) DocumentHandler -> batch.Writer driven through the verif hook -> OperationHandler -> in-memory CAS -> recording ledger assigning time, non-monotone number, canonical and equivalent references -> Observer -> TxnProcessor -> operation store -> OperationProcessor -> didtransformer): 1-5 DIDs, 3-25 client operations (create / update / recover / deactivate with patch lists over all eight actions, all key types), drawn flush points (monitor / timeout ticks), maxOperationCount 1-4, operations submitted while an earlier one for the DID is still queued, one or two protocol versions (second one with sha2-512 first, fewer patch actions, later genesis time), with and without an unpublished-operation store, with and without two method contexts on the transformers, one node in three with a label / domain for interim DIDs and / or an alias namespace (resolutions then ask by turns for the plain DID, the DID under the alias and - long-form only - the DID with the label as hint; the DID string of an answer may be any spelling that names the suffix under the namespace or alias); every result the node hands out stays held (last 16) and must not change while later requests are served; oracle: every stored operation carries the protocol version that was in force when it was accepted; after every flush and at the end every DID resolves (ResolveDocument) to the kit/refdoc + reference prediction over its accepted operations in anchoring order (document projection, commitments, deactivated, published flag and canonical id once anchored); create response == long-form resolution before anchoring == short-form resolution after anchoring (modulo the DID string); non-trivial = a DID with >= 3 applied operations including a recover or deactivate, or an operation submitted while another is queued, or a version switch")
 	ev.Rapid(t, chk, 200, 1500, func(t *rapid.T) {
 		c := &Case{Max: uint(rapid.IntRange(1, 4).Draw(t, "max")), TwoVersions: rapid.Bool().Draw(t, "twoVersions"), Unpublished: rapid.Bool().Draw(t, "unpublishedStore"), MethodContexts: rapid.Bool().Draw(t, "methodContexts"), ViaREST: rapid.Bool().Draw(t, "viaRest")}
+		if rapid.IntRange(0, 2).Draw(t, "handlerNaming") == 0 {
+			// the node hands out labelled interim DIDs, names a domain and / or answers under an alias namespace
+			c.Label = rapid.SampledFrom([]string{"", "interim", "uAAA"}).Draw(t, "label")
+			c.Domain = rapid.SampledFrom([]string{"", "https:example.com"}).Draw(t, "domain")
+			c.Alias = rapid.Bool().Draw(t, "alias")
+		}
 		p := newPipeline(c)
 		defer p.close()
 		clients := map[int]*clientDID{}
